@@ -13,11 +13,11 @@ import (
 // ---------------------------------------------------------------------------------- values
 
 type funcVal struct {
-	kind string        // lit | decl | nop | user
-	lit  *ast.FuncLit  // kind lit
-	lex  *frame        // lexical frame of a literal
-	fn   *types.Func   // kind decl
-	recv ast.Expr      // receiver expression of a method value (already evaluated)
+	kind      string       // lit | decl | nop | user
+	lit       *ast.FuncLit // kind lit
+	lex       *frame       // lexical frame of a literal
+	fn        *types.Func  // kind decl
+	recv      ast.Expr     // receiver expression of a method value (already evaluated)
 	recvFrame *frame
 }
 
@@ -100,38 +100,38 @@ type rootReq struct {
 }
 
 type translator struct {
-	l         *loaded
-	decls     map[string]*ast.FuncDecl // key: funcKey
-	ownTypes  map[string]bool
-	roots     []*rootCFG
-	pending   []rootReq
-	seenRoot  map[string]bool
-	entropyTs []string
-	outputLit *ast.FuncLit
-	sites     []site
-	skippedLocal int
+	l             *loaded
+	decls         map[string]*ast.FuncDecl // key: funcKey
+	ownTypes      map[string]bool
+	roots         []*rootCFG
+	pending       []rootReq
+	seenRoot      map[string]bool
+	entropyTs     []string
+	outputLit     *ast.FuncLit
+	sites         []site
+	skippedLocal  int
 	userCallbacks map[string]bool
-	externals map[string]int
+	externals     map[string]int
 }
 
 type site struct {
-	Root string `json:"root"`
-	Func string `json:"func"`
-	File string `json:"file"`
-	Line int    `json:"line"`
-	Loc  string `json:"loc"`
-	Kind string `json:"kind"`
+	Root  string `json:"root"`
+	Func  string `json:"func"`
+	File  string `json:"file"`
+	Line  int    `json:"line"`
+	Loc   string `json:"loc"`
+	Kind  string `json:"kind"`
 	Locks string `json:"locks"`
 }
 
 type walker struct {
-	t     *translator
-	r     *rootCFG
-	s     st
-	fr    *frame
-	mute  bool
-	stack []string
-	memo  map[string]*memoEnt
+	t          *translator
+	r          *rootCFG
+	s          st
+	fr         *frame
+	mute       bool
+	stack      []string
+	memo       map[string]*memoEnt
 	rootParams map[types.Object]bool
 }
 
